@@ -254,3 +254,40 @@ fn c05_mprotect_fails() {
     kani::cover!(true, "COVER:installed-despite-mprotect-failure");
     std::mem::forget(g);
 }
+
+fn mon_no_guard_at_panic(kind: u32, _line: u32) {
+    unsafe {
+        assert!(kind == K_MPROTECT, "OBL:C05.refused.kind: the refusal is the mprotect failure");
+        assert!(GUARDS_CREATED == 0, "OBL:C05.no-guard-at-refusal: when the installation is refused no PatchGuard for that target exists yet — its destructor would run during the unwind, call the failing mprotect again and turn one panic into an abort");
+        let i: usize = kani::any();
+        kani::assume(i < A);
+        assert!(os::MEM[i] == SNAPSHOT[i], "OBL:C05.refused.untouched: the refused target is untouched");
+    }
+    kani::cover!(true, "COVER:panic-hook");
+    kani::assume(false);
+}
+
+/// C05 (at most one panic, never an abort): an installation refused at the mprotect step raises its
+/// panic while no guard for that target is alive.
+#[kani::proof]
+#[kani::unwind(26)]
+#[kani::stub(crate::injector_core::linuxapi::__clear_cache, os::flush)]
+#[kani::stub(crate::injector_core::common::allocate_jit_memory, far_alloc)]
+#[kani::stub(crate::injector_core::common::PatchGuard::new, counting_guard_new)]
+#[kani::stub(crate::verif_rt::on_panic, mon_no_guard_at_panic)]
+fn c05_no_guard_before_writable() {
+    fresh_world();
+    kani::assume(os::far_ptr() as usize <= isize::MAX as usize - 64 && os::mem_base() <= isize::MAX as usize - A);
+    let as_bool: bool = kani::any();
+    unsafe {
+        os::MPROTECT_FAIL = true;
+        GUARDS_CREATED = 0;
+    }
+    let g = if as_bool {
+        PatchAmd64::replace_function_return_boolean(fp(os::mem_ptr(16)), true)
+    } else {
+        PatchAmd64::replace_function_with_other_function(fp(os::mem_ptr(16)), fp_int(0x1000))
+    };
+    kani::cover!(true, "COVER:installed-despite-mprotect-failure");
+    std::mem::forget(g);
+}
